@@ -16,6 +16,7 @@ implementation (not a function of the received bytes; listed as boundary)."""
 from rules.core import k4
 
 CRATES = ["aranya_runtime"]
+THOROUGH_CONFIGS = ["lowmem"]   # thorough tier: the same rules on the low-mem-usage build
 
 ENTRIES = [
     "aranya_runtime::sync::SyncIncoming::decode",
